@@ -187,7 +187,9 @@ def run_unit(ctx, unit):
         in_file = len(first)
         if unit["transport"] == "dir+fifo":
             # ... the ordinary file lies in a nested directory of a directory argument, with an empty sibling directory
-            case = core.Case(["@D@/in", "@D@/endless.fifo"] + largs, files=[("in/sub/deep/first.json", first), ("in/sub/deep/er/empty.json", b"")],
+            # ... and with siblings that hold no value (whatever order the directory is listed in, some entry follows the file)
+            case = core.Case(["@D@/in", "@D@/endless.fifo"] + largs, files=[("in/sub/deep/0-blank.json", b" \n"), ("in/sub/deep/first.json", first), ("in/sub/deep/er/empty.json", b""),
+                                                                             ("in/sub/deep/a-empty.json", b""), ("in/sub/deep/z-blank.json", b"\n\n"), ("in/sub/deep/m.json", b"")],
                              efifos=[("endless.fifo", rest, TAIL_PRE_U, TAIL_POST, cap)], watchdog_ms=30000)
         else:
             case = core.Case(["@D@/first.json", "@D@/endless.fifo"] + largs, files=[("first.json", first)],
@@ -241,6 +243,12 @@ def run_unit(ctx, unit):
             st.inconc("fifo_stats_missing")
             return
         pulled, opened, capped = o.efifo[0]
+        if opened and T > 0 and unit["transport"] in ("file+fifo", "dir+fifo") and deciding <= min(unit.get("file_parts", 0), len(parts)):
+            # every wanted row comes from the ordinary file (also when that file is one of several entries of a directory
+            # argument): the next input is not needed, so it is not opened
+            bad("opened-unneeded-input:" + unit["transport"], "all %d wanted rows come from the first input (%d of its %d values), yet the following input was opened and %d bytes of it read"
+                % (need, deciding, min(unit.get("file_parts", 0), len(parts)), pulled))
+            return
         pulled += in_file
         slack = SLACK + 64 * 1024 + 8 * 1024 + tail_len   # pipe buffer + BufReader
     if capped:
